@@ -531,6 +531,25 @@ class Interp:
         self.call_function(Func(r.node, Env(module_of(r.node)), obj, r.found_on), list(args), dict(kwargs))
         return obj
 
+    _BENIGN_DECORATORS = {'staticmethod', 'classmethod', 'property', 'abstractmethod', 'abc.abstractmethod', 'overload', 'typing.overload', 'override', 'typing.override',
+                          'typing_extensions.override', 'functools.cached_property', 'cached_property', 'final', 'typing.final'}
+
+    def method_func(self, node: ast.FunctionDef, env: 'Env', self_obj: Any, found_on: Any) -> Any:
+        """The function a method name is bound to: the function itself, or what its decorators make of it (a decorator written in
+        the analysed code is applied - the closure it returns is what gets called; an unknown one makes the method undecided)."""
+        extra = [d for d in node.decorator_list if (dotted(d.func if isinstance(d, ast.Call) else d) or '?') not in self._BENIGN_DECORATORS]
+        if not extra:
+            return Func(node, env, self_obj, found_on)
+        f: Any = Func(node, env, None, found_on)
+        for d in reversed(extra):
+            dv = self.eval(d, env)
+            if dv is UNK or isinstance(dv, Ref):
+                raise Undecided(f'method {node.name} is wrapped by the decorator {ast.unparse(d)[:40]}, which is not followed')
+            f = self.call(dv, [f], {}, d)
+            if not isinstance(f, Func):
+                raise Undecided(f'the decorator {ast.unparse(d)[:40]} of {node.name} does not return a function of the analysed code')
+        return Func(f.node, f.env, self_obj, found_on) if self_obj is not None else f
+
     def call_method(self, obj: Obj, name: str, *args: Any, **kwargs: Any) -> Any:
         f = self.get_attr(obj, name, None)
         return self.call(f, list(args), dict(kwargs), None)
@@ -1068,7 +1087,7 @@ class Interp:
                 return Func(r.node, env, None, r.found_on)
             if clsm:
                 return Func(r.node, env, ClassRef(cls), r.found_on)
-            return Func(r.node, env, obj, r.found_on)
+            return self.method_func(r.node, env, obj, r.found_on)
         if isinstance(r.node, ast.Lambda):
             return Func(r.node, Env(module_of(r.node)), obj, r.found_on)
         if isinstance(r.node, (ast.Assign, ast.AnnAssign)) and r.node.value is not None:
@@ -1633,7 +1652,7 @@ class Interp:
             r = self.table.resolve(recv.cls, meth)
             if r is None or not isinstance(r.node, ast.FunctionDef):
                 continue
-            res = self.call(Func(r.node, Env(module_of(r.node)), recv, r.found_on), [other], {}, None)
+            res = self.call(self.method_func(r.node, Env(module_of(r.node)), recv, r.found_on), [other], {}, None)
             if res is not NotImplemented:
                 return res
         raise Raised('TypeError')
